@@ -198,7 +198,8 @@ Proof.
   intros p wf st out st' out' H. unfold filt_exit_hand in H. destruct out as [|i].
   - inversion H; subst. apply stable_refl.
   - destruct (pv p _); inversion H; subst; try apply stable_refl.
-    eapply stable_trans; [apply (alloc_stable (pred_exc p FnFiltExit))|apply add_frame_stable].
+    + eapply stable_trans; [apply (alloc_stable (pred_exc p FnFiltExit))|apply add_frame_stable].
+    + eapply stable_trans; [apply add_frame_stable|]. eapply stable_trans; apply add_frame_stable.
 Qed.
 
 Lemma filt_call_hand_stable : forall p x st st' r, filt_call_hand p x st = (st', r) -> stable st st'.
@@ -212,6 +213,8 @@ Proof.
         [apply add_frame_stable|apply (alloc_stable (mkobj cls_type [FHelper FnFiltCall KVal] ONew None))].
   - inversion H; subst. apply stable_refl.
   - inversion H; subst. apply (alloc_stable (pred_exc p FnFiltCall)).
+  - destruct x; inversion H; subst;
+      [eapply stable_trans; apply add_frame_stable|apply (alloc_stable (mkobj cls_type _ ONew None))].
 Qed.
 
 (* ------------------------------------------------------------------ entering / leaving the with statement *)
@@ -533,8 +536,8 @@ Definition sare_full_statement : Prop :=
     let '(s3, _, outb, out') := with_sare r0 lab wf (fun s st => exec b s st) st in
     outb = Normal -> reraise s3 = true -> out' = Raised o.
 
-Definition plain_cls := mkcls 0 true true.
-Definition mand_cls := mkcls 1 false true.
+Definition plain_cls := mkcls 0 true true true.
+Definition mand_cls := mkcls 1 false true true.
 (* the program state after   try: raise_orig()  except BaseException:   *)
 Definition handling_orig (c : cls) : state :=
   match exec (RaiseOrig c 0) (sare_blank 0) st0 with
@@ -580,15 +583,19 @@ Lemma filter_exit_lemma : forall p l b s st s1 st1 out,
           exists st2, exec (Filter p l b) s st = (s1, st2, Raised (next st1)) /\ stable st1 st2 /\
                       next st2 = S (next st1) /\ ecls (heap st2 (next st1)) = praise_cls p /\
                       eorg (heap st2 (next st1)) = OSite (plab p)
+      | PReraise =>
+          exists st2, exec (Filter p l b) s st = (s1, st2, Raised i) /\ stable st1 st2
       end
   end.
 Proof.
   intros p l b s st s1 st1 out E. cbn [exec]. rewrite E, filt_exit_equiv. unfold filt_exit_hand.
   destruct out as [|i]; [reflexivity|].
   destruct (pv p (Some (cls_of st1 i))); try reflexivity.
-  eexists. split; [reflexivity|]. split.
-  - eapply stable_trans; [apply (alloc_stable (pred_exc p FnFiltExit))|apply add_frame_stable].
-  - cbn. rewrite !upd_same. cbn. auto.
+  - eexists. split; [reflexivity|]. split.
+    + eapply stable_trans; [apply (alloc_stable (pred_exc p FnFiltExit))|apply add_frame_stable].
+    + cbn. rewrite !upd_same. cbn. auto.
+  - eexists. split; [reflexivity|].
+    eapply stable_trans; [apply add_frame_stable|]. eapply stable_trans; apply add_frame_stable.
 Qed.
 
 (* called directly with an exception object i *)
@@ -601,6 +608,7 @@ Lemma filter_call_obj_lemma : forall p l s st i,
   | PRaise =>
       exists st', exec (FilterCall p (AObj i) l) s st = (s, st', Raised (next st)) /\ stable st st' /\
                   ecls (heap st' (next st)) = praise_cls p /\ eorg (heap st' (next st)) = OSite (plab p)
+  | PReraise => exists st', exec (FilterCall p (AObj i) l) s st = (s, st', Raised i) /\ stable st st'
   end.
 Proof.
   intros p l s st i. cbn [exec]. rewrite filt_call_equiv. unfold filt_call_hand. cbn [option_map].
@@ -618,6 +626,8 @@ Proof.
   - eexists. split; [reflexivity|]. split.
     + eapply stable_trans; [apply (alloc_stable (pred_exc p FnFiltCall))|apply add_frame_stable].
     + cbn. rewrite !upd_same. cbn. auto.
+  - eexists. split; [reflexivity|].
+    eapply stable_trans; [apply add_frame_stable|]. eapply stable_trans; apply add_frame_stable.
 Qed.
 
 (* called with the exception being handled *)
@@ -635,6 +645,8 @@ Lemma filter_call_none_lemma : forall p l s st,
                           ecls (heap st' (next st)) = cls_type /\ eorg (heap st' (next st)) = ONew
   | PRaise => exists st', exec (FilterCall p ANone l) s st = (s, st', Raised (next st)) /\ stable st st' /\
                           ecls (heap st' (next st)) = praise_cls p
+  | PReraise => exists st', exec (FilterCall p ANone l) s st = (s, st', Raised (next st)) /\ stable st st' /\
+                            ecls (heap st' (next st)) = cls_type
   end.
 Proof.
   intros p l s st H. cbn [exec]. rewrite filt_call_equiv. unfold filt_call_hand. cbn [option_map]. rewrite H.
@@ -645,6 +657,9 @@ Proof.
   - reflexivity.
   - eexists. split; [reflexivity|]. split.
     + eapply stable_trans; [apply (alloc_stable (pred_exc p FnFiltCall))|apply add_frame_stable].
+    + heap_tac.
+  - eexists. split; [reflexivity|]. split.
+    + eapply stable_trans; [apply (alloc_stable (mkobj cls_type [FHelper FnFiltCall KCall; FHelper FnFiltCall KCtor] ONew None))|apply add_frame_stable].
     + heap_tac.
 Qed.
 
@@ -805,7 +820,7 @@ Example filter_example_propagated :
 Proof. eexists. eexists. vm_compute. reflexivity. Qed.
 Example rpoe_example :
   isexc (cls_of (handling_orig plain_cls) 0) = true /\ 0 < next (handling_orig plain_cls) /\
-  isexc (cls_of (handling_orig (mkcls 2 true false)) 0) = false.
+  isexc (cls_of (handling_orig (mkcls 2 true false true)) 0) = false.
 Proof. split; [reflexivity|]. split; [cbn; lia|reflexivity]. Qed.
 
 (* ------------------------------------------------------------------ the original traceback is never lost (all bodies) *)
@@ -967,7 +982,8 @@ Proof.
     rewrite filt_exit_equiv in H. unfold filt_exit_hand in H.
     destruct o1 as [|i]; [inversion H; subst; split; assumption|].
     destruct (pv p _); inversion H; subst; try (split; assumption).
-    split; [|exact A2]. apply add_frame_suffix. apply (alloc_suffix T (pred_exc p FnFiltExit)); [lia|exact A1].
+    + split; [|exact A2]. apply add_frame_suffix. apply (alloc_suffix T (pred_exc p FnFiltExit)); [lia|exact A1].
+    + split; [|exact A2]. apply add_frame_suffix, add_frame_suffix, add_frame_suffix. exact A1.
   - destruct K as [K1 K2].
     assert (A : exists st1 x, next st <= next st1 /\ tb_suffix T (tb_of st1 o) /\
         match do_filt_call p x s st1 with
@@ -995,6 +1011,9 @@ Proof.
     + inversion A; subst. split; [exact S1|exact K2].
     + inversion A; subst. split; [|exact K2].
       apply add_frame_suffix. apply (alloc_suffix T (pred_exc p FnFiltCall)); assumption.
+    + destruct x as [i|]; inversion A; subst; split; try exact K2.
+      * apply add_frame_suffix, add_frame_suffix, add_frame_suffix. exact S1.
+      * apply add_frame_suffix. apply (alloc_suffix T (mkobj cls_type _ ONew None)); assumption.
   - destruct (with_same (FProg l) (fun s' st' => exec b s' st') s st) as [[[s3 st3] ob] o3] eqn:W.
     inversion H; subst.
     eapply (with_same_keeps o T); [|exact Ho|exact K|exact W].
@@ -1145,3 +1164,42 @@ Proof.
       eapply stable_trans; apply add_frame_stable.
     + heap_tac.
 Qed.
+
+(* ------------------------------------------------------------------ filters of filters (exception_filter.__init__) *)
+
+Lemma filt_init_fun_lemma : forall n p, filt_pred (filt_init (CFun n p)) = p /\ fnamed_of (filt_init (CFun n p)) = n.
+Proof. intros. split; reflexivity. Qed.
+
+(* wrapping a filter that has the wrapper attributes: update_wrapper's __dict__ merge replaces the predicate attribute by
+   the inner filter's own predicate, so the doubly wrapped filter consults the REAL predicate *)
+Lemma filt_init_named_filter_lemma : forall f,
+  fnamed_of f = true -> filt_pred (filt_init (CFilt f)) = filt_pred f /\ fnamed_of (filt_init (CFilt f)) = true.
+Proof.
+  intros [c n] H. cbn in H. subst n. unfold filt_init. change gen_filt_init_order with AssignThenWrap. cbn. auto.
+Qed.
+
+(* function filter of a function filter, stacked decorators, bound method of a doubly decorated method *)
+Lemma filt_double_named_lemma : forall p, filt_pred (filt_init (CFilt (filt_init (CFun true p)))) = p.
+Proof. intro p. reflexivity. Qed.
+
+(* K14: when the innermost callable lacks the wrapper attributes nothing is merged: the outer predicate is the inner
+   FILTER, whose __call__ returns None for what it accepts and re-raises what it rejects *)
+Lemma filt_double_unnamed_lemma : forall p, filt_pred (filt_init (CFilt (filt_init (CFun false p)))) = as_pred p.
+Proof. intro p. reflexivity. Qed.
+
+Definition filter_of_filter_full_statement : Prop :=
+  forall n p x, pv (filt_pred (filt_init (CFilt (filt_init (CFun n p))))) x = pv p x.
+Definition accept_all : predspec := mkpred (fun _ => PTruthy) plain_cls 1002 [].
+Lemma k14_refutes : ~ filter_of_filter_full_statement.
+Proof. intro H. specialize (H false accept_all None). vm_compute in H. discriminate. Qed.
+(* the accepted exception is NOT suppressed by the doubly wrapped filter *)
+Lemma k14_not_suppressed :
+  exists s st, exec (Filter (filt_pred (filt_init (CFilt (filt_init (CFun false accept_all))))) 2 (RaiseNew plain_cls 0 10))
+                    (sare_blank 0) st0 = (s, st, Raised 0).
+Proof. eexists. eexists. vm_compute. reflexivity. Qed.
+
+(* truthiness of the exception object plays no role in capture(): a falsy active exception is captured like any other *)
+Definition falsy_cls := mkcls 6 true true false.
+Example capture_falsy_example :
+  exists s st, do_capture_stmt (FProg 2) (sare_blank 0) (handling_orig falsy_cls) = (s, st, Normal) /\ value s = Some 0.
+Proof. eexists. eexists. split; vm_compute; reflexivity. Qed.
